@@ -124,7 +124,8 @@ def table():
         conf = f"{m.get('demo_without_patch', {}).get('rc')} / {m.get('demo_with_patch', {}).get('rc')}, " + \
                (m.get("suite_with_patch", {}).get("tail", "").strip().splitlines()[-1][:28] if m.get("suite_with_patch") else "?")
         keys = [r["keys"][0][4:90] for p, r in m.get("checks", {}).items() if r["rc"] == 1 and r["keys"]]
-        rows.append(f"| `seeded/{name}` | {m.get('summary', '')} | {conf} | {', '.join(m.get('caught_by', [])) or 'MISSED'} | {keys[0] if keys else ''} |")
+        caught = ', '.join(m.get('caught_by', [])) or ('no longer a break on the repaired tree (see note in meta.json)' if m.get('note') and not m.get('confirmed') else 'MISSED')
+        rows.append(f"| `seeded/{name}` | {m.get('summary', '')} | {conf} | {caught} | {keys[0] if keys else ''} |")
     print("\n".join(rows))
 
 
